@@ -821,6 +821,8 @@ impl AssetExpr {
         match &self.policy {
             Expression::None => None,
             Expression::Bytes(x) => Some(x.as_slice()),
+            // a declared policy lowers to its hash
+            Expression::Hash(x) => Some(x.as_slice()),
             _ => None,
         }
     }
